@@ -33,6 +33,12 @@ CLAIMED = {
             "elements (ints, ASCII text, logicals, blanks) and symbolic lookup value/indices; sortedness is a precondition written against an independent order.",
             "Bounds: vectors len<=3 ints / <=2 mixed (quick), <=6 ints / <=4 mixed (thorough), tables <=3x3, text len<=1, wildcard patterns from a concrete pool.",
             "DESIGN.md 4/C16"),
+    "C20": ("model_checking",
+            "CrossHair symbolic execution of the wrapped text functions over symbolic ASCII strings, z3 decides every path",
+            "The slicing/search/substitution identities of the statement are assertions over symbolic text, positions and counts run through the apply_meta-wrapped "
+            "LEFT/MID/RIGHT/REPLACE/FIND/SUBSTITUTE/CONCATENATE/CONCAT/TRIM/UPPER/LOWER/EXACT/LEN that compiled formulas call.",
+            "Bounds: ASCII text len<=4 (quick) / 5..6 (thorough), positions -1..len+2; TRIM over {' ','a'}* up to length 4; TEXT(x, fmt) is outside the claim (C code without a model).",
+            "DESIGN.md 4/C20"),
 }
 
 NOT_YET = "check not built yet in this round (machinery under construction); see DESIGN.md section 4"
